@@ -67,7 +67,14 @@ def check(ctx):
         ctx.require(R3, not early, fe.where(), "the listener's iterator is not cut short by an early-terminating adaptor (%s)" % [v.rsplit("::", 1)[-1] for v in early],
                     [START, "loop-exit-adaptor"])
         ctx.ok(R3, "for_each over %s: runs until the listener's iterator ends" % [v.rsplit("::", 1)[-1] for v in sorted(chain.via) if "Listener::incoming" in v])
-        for g in fe.gbodies:
+        for g in fe.gbodies[:-1]:
+            # closures of the adaptors between incoming() and for_each (`filter_map(|c| c.ok())`) run in the accept loop as well
+            ab = prog.body(g)
+            if ab is None or ab.kind != "Closure":
+                continue
+            for s_ in sources_in(ab):
+                ctx.fail(R2, s_.where(), "panic source in the accept loop (iterator adaptor): %s %s" % (s_.kind, s_.what), [START, "loop", s_.kind, s_.what])
+        for g in fe.gbodies[-1:]:       # for_each::<Self, F>: the last closure among the generic arguments is F (earlier ones belong to adaptors in Self)
             cb = prog.body(g)
             if cb is None or cb.kind != "Closure":
                 continue
